@@ -1595,11 +1595,17 @@ async fn apply_assignment(
     // Read option before taking mutable borrow on env.
     let export_variables_on_modification = shell.options().export_variables_on_modification;
 
+    // A required scope means the innermost one of that type (e.g., the scope of the command
+    // a temporary assignment belongs to, not that of an enclosing command).
+    let in_innermost_scope = shell.env().innermost_scope_has(variable_name.as_str());
+
     // See if we can find an existing value associated with the variable.
     if let Some((existing_value_scope, existing_value)) =
         shell.env_mut().get_mut(variable_name.as_str())
     {
-        if required_scope.is_none() || Some(existing_value_scope) == required_scope {
+        if required_scope.is_none()
+            || (Some(existing_value_scope) == required_scope && in_innermost_scope)
+        {
             if let Some(array_index) = array_index {
                 match new_value {
                     ShellValueLiteral::Scalar(s) => {
